@@ -29,7 +29,8 @@ CONSTANTS TolS,        \* tolerance in whole seconds: int64(tolerance.Seconds())
           TtlH,        \* nonce retention in half seconds
           EvictH,      \* sweep interval in half seconds (nonceCacheEvictInterval)
           MaxDeliver,  \* deliveries of m (original + replays)
-          MaxOther,    \* unrelated messages
+          MaxOther,    \* bursts of unrelated messages
+          Bursts,      \* sizes k of a burst of unrelated messages sent through the same transport at one instant
           MaxA, MaxB,  \* anchor multipliers
           EpsMax,      \* half-second offsets -EpsMax..EpsMax around every anchor
           Emit
@@ -86,17 +87,19 @@ Deliver ==
             /\ nDel' = nDel + 1
             /\ accepts' = accepts + (IF acc THEN 1 ELSE 0)
             /\ inWin' = (inWin /\ (acc => fresh))
-            /\ hist' = Append(hist, [k |-> "m", t |-> t, acc |-> acc])
+            /\ hist' = Append(hist, [k |-> "m", t |-> t, acc |-> acc, n |-> 0])
             /\ UNCHANGED nOther
 
-\* an unrelated, correctly timestamped message with a nonce of its own
+\* a burst of n unrelated, correctly timestamped messages with nonces of their own, all at one
+\* instant (same expiry, so one entry stands for the burst); on the wire they reuse the
+\* transport's pooled request buffers between the original and a replay
 Other ==
     /\ t1 # -1 /\ nOther < MaxOther /\ nDel < MaxDeliver
-    /\ \E t \in Times :
+    /\ \E t \in Times, n \in Bursts :
          LET r == Track(entries, lastEvict, "o" \o ToString(nOther + 1), t) IN
          /\ now' = t /\ entries' = r[2] /\ lastEvict' = r[3]
          /\ nOther' = nOther + 1
-         /\ hist' = Append(hist, [k |-> "o", t |-> t, acc |-> r[1]])
+         /\ hist' = Append(hist, [k |-> "o", t |-> t, acc |-> r[1], n |-> n])
          /\ UNCHANGED <<ts, t1, nDel, accepts, inWin>>
 
 Done == nDel = MaxDeliver /\ UNCHANGED vars
